@@ -22,14 +22,24 @@ for p in props:
         "level_note": c["note"],
         "technique": c["technique"],
     })
+def hook_commits():
+    """commits of /repo that add the build-tag-guarded hook files (subject starts with 'verif')"""
+    import subprocess
+    try:
+        out = subprocess.run(["git", "-C", "/repo", "log", "--reverse", "--format=%H %s", "91db560..HEAD"], stdout=subprocess.PIPE, check=True).stdout.decode()
+        got = [l.split()[0] for l in out.splitlines() if l.split(" ", 1)[1].startswith("verif")]
+        if got: return got
+    except Exception:
+        pass
+    return claims.get("_hook_commits", [])
 m = {
     "version": 1,
     "setup_cmd": "./setup.sh",
     "hooks": {
         "guard": "verif",
-        "enable": "go build -tags verif (files verif_export.go, add-only, in the packages listed in DESIGN.md §2)",
+        "enable": "go build -tags verif (files verif_export_cNN.go, add-only, in the packages listed in DESIGN.md §2)",
         "baseline_off_cmd": "cd /repo && GOFLAGS=-mod=mod GOPROXY=off go test -json -vet=off -count=1 -timeout 25m ./...",
-        "source_commits": claims.get("_hook_commits", []),
+        "source_commits": hook_commits(),
         "add_only": True,
     },
     "engines": [{
